@@ -9,11 +9,11 @@ CONSTANTS
   PAns = {"ok"}
   PPub = {"ok"}
   Relay = 253
-  Ends = {253, 254, 760, 1263, 100253, 1000000}
-  Sopts = {0, 253, 5000}
-  Ests = {0, 253, 300}
-  Cts = {1007, 1008, 1009, 1011}
-  ConfSet = {0, 1, 2, 3, 500, 1006, 1007, 1008, 1009, 1010, 1011, 1012}
+  Ends = {200, 253, 254, 255, 256, 260, 263, 300, 753, 1253, 1254, 2753, 5000}
+  Sopts = {0, 253, 256, 5000}
+  Ests = {0, 100, 253, 258, 6000}
+  Cts = {0, 1, 2, 3, 4, 5, 6, 9}
+  ConfSet = {}
   Weights = {}
   Budgets = {}
   MaxVbs = {}
